@@ -738,8 +738,8 @@ func limitScenario(n int, withInt bool) hx.Scenario {
 			var f *sched.Failure
 			total := n
 			if total <= 10 {
-				if inv.Status != 200 {
-					f = &sched.Failure{Clause: "1", Sig: "limit-refused-allowed", Msg: fmt.Sprintf("%d extensions (<= 10) but the invocation ended with status %d %q", n, inv.Status, inv.Body)}
+				if inv.Status != 200 || string(inv.Body) != `{"a":1}` {
+					f = &sched.Failure{Clause: "1", Sig: "limit-refused-allowed", Msg: fmt.Sprintf("%d extensions (<= 10) but the invocation ended with status %d %q (a refused registration changed a barrier count?)", n, inv.Status, inv.Body)}
 				}
 				ir, _ := e.Values["intReg"].(*stack.Call)
 				if withInt && ir != nil {
@@ -750,7 +750,7 @@ func limitScenario(n int, withInt bool) hx.Scenario {
 						f = &sched.Failure{Clause: "1", Sig: "limit-internal-refused", Msg: fmt.Sprintf("an internal extension registered as number %d got status %d %s", n+1, ir.Status, etype(ir.Body))}
 					}
 				}
-			} else if inv.Status == 200 || execs > 11 {
+			} else if (inv.Status == 200 && string(inv.Body) == `{"a":1}`) || execs > 11 {
 				f = &sched.Failure{Clause: "1", Sig: "limit-exceeded-accepted", Msg: fmt.Sprintf("%d extension files: invocation status %d, %d extension processes launched", n, inv.Status, execs)}
 			}
 			return o, o, f
